@@ -209,9 +209,29 @@ Fixpoint strictly_ascN (l : list N) : bool :=
   | _ => true
   end.
 
+(* executable twin of C06_one_observation_per_node / C06_obs_threshold on what phase A actually handed to the signers
+   (the AttributedSignedObservations of the ReportSignatureRequest): no node appears twice, and every lane has a root
+   carried by F_home+1 DISTINCT nodes *)
+Definition attr_voters (attr : list (node * list (chain * root))) (ch : chain) (r : root) : list node :=
+  dedupN (map fst (filter (fun a => existsb (vote_pair_eqb (ch, r)) (snd a)) attr)).
+Definition attr_ok (cfg : config) (attr : list (node * list (chain * root))) : bool :=
+  match attr with
+  | [] => true
+  | _ =>
+      nodupb N.eqb (map fst attr) &&
+      match prepare cfg with
+      | inl (Ok us) =>
+          forallb (fun u =>
+            existsb (fun a => existsb (fun v => N.eqb (fst v) (u_chain u) &&
+                                               gte_f_plus_one (u_F u) (zlen (attr_voters attr (u_chain u) (snd v))))
+                                      (snd a)) attr) us
+      | _ => false
+      end
+  end.
+
 Definition c06_ok1 (i : c06_in) (o : out1) : bool :=
   let cfg := i_cfg i in
-  negb (N.eqb (o_kind o) 9) && negb (N.eqb (o_kind o) 10) &&
+  negb (N.eqb (o_kind o) 9) && negb (N.eqb (o_kind o) 10) && attr_ok cfg (o_attr o) &&
   (if N.eqb (o_kind o) 0 then
      match prepare cfg with
      | inl (Ok us) =>
